@@ -22,27 +22,36 @@ LookupM(T, m, host, path) ==
 
 MethodsOfT(T) == {T[i].m : i \in DOMAIN T}
 
-\* method m has a route serving host and path: directly, or by ignoring a trailing slash
+\* method m has a route serving host and path: directly, or by ignoring a trailing slash. CONNECT is never served
+\* through a trailing slash (C08), so whether a CONNECT route that ignores trailing slashes makes CONNECT one of "the
+\* methods serving the path" (C11) for such a path is left open: those methods may or may not be listed (MaybeServes).
 Serves(T, m, host, path) ==
-  LET r == LookupM(T, m, host, path) IN r.ok /\ (~r.tsr \/ T[r.id].opt = "ign")
+  LET r == LookupM(T, m, host, path) IN r.ok /\ (~r.tsr \/ (T[r.id].opt = "ign" /\ m # "CONNECT"))
+MaybeServes(T, m, host, path) ==
+  LET r == LookupM(T, m, host, path) IN m = "CONNECT" /\ r.ok /\ r.tsr /\ T[r.id].opt = "ign"
 
 NoRoute == [kind |-> "noroute"]
 
 Unmatched(T, cfg, req) ==
   LET ms == MethodsOfT(T)
       serving == {m \in ms : Serves(T, m, req.host, req.path)}
+      maybe == {m \in ms : MaybeServes(T, m, req.host, req.path)}
   IN IF req.m = "OPTIONS" /\ cfg.autoOptions THEN
         LET allow == (IF req.path = <<"*">> THEN ms ELSE serving) \ {"OPTIONS"} IN
-        IF allow # {} THEN [kind |-> "options", allow |-> allow \cup {"OPTIONS"}, optional |-> {}, amb |-> FALSE]
+        IF allow # {} THEN [kind |-> "options", allow |-> allow \cup {"OPTIONS"}, optional |-> maybe, amb |-> FALSE]
         \* corner left open by the statement: "OPTIONS *" when only OPTIONS itself has routes
         ELSE IF req.path = <<"*">> /\ ms = {"OPTIONS"}
              THEN [kind |-> "options", allow |-> {"OPTIONS"}, optional |-> {}, amb |-> TRUE]
+        \* only the open CONNECT corner would make the path served: 200 with what may be listed, or the no-route reply
+        ELSE IF maybe # {} THEN [kind |-> "options", allow |-> {"OPTIONS"}, optional |-> maybe, amb |-> TRUE]
         ELSE NoRoute
      ELSE IF cfg.noMethod THEN
-        LET others == serving \ {req.m} IN
-        IF others # {} THEN [kind |-> "nomethod", allow |-> others,
-                             optional |-> IF cfg.autoOptions THEN {"OPTIONS"} ELSE {}, amb |-> FALSE]
-        ELSE NoRoute
+        LET others == serving \ {req.m}
+            mb == maybe \ {req.m}
+            opt == IF cfg.autoOptions THEN {"OPTIONS"} ELSE {}
+        IN IF others # {} THEN [kind |-> "nomethod", allow |-> others, optional |-> opt \cup mb, amb |-> FALSE]
+           ELSE IF mb # {} THEN [kind |-> "nomethod", allow |-> {}, optional |-> opt \cup mb, amb |-> TRUE]
+           ELSE NoRoute
      ELSE NoRoute
 
 Reply(T, cfg, req) ==
@@ -65,7 +74,7 @@ RedirectOnlyClean(T, cfg, req) ==
 AllowSound(T, cfg, req) ==
   LET r == Reply(T, cfg, req) IN
   r.kind \in {"options", "nomethod"} =>
-     /\ r.allow # {}
+     /\ r.amb \/ r.allow # {}
      /\ r.kind = "nomethod" => req.m \notin r.allow
      /\ r.kind = "options" => "OPTIONS" \in r.allow
 =============================================================================
